@@ -39,7 +39,7 @@ def pre_case_term(text, o_def, pre, panic):
     for n in o_def["Nodes"]:
         d = pre["NodeDofs"].get(n["ID"])
         nodes.append("(%s, %s, %s, %s, %s)" % (C10.coq_str(n["ID"]), E.q(n["X"]), E.q(n["Y"]), E.link((n["Dx"], n["Dy"], n["Rz"])),
-                                                "(Some (%d, %d, %d)%%nat)" % tuple(d) if d else "None"))
+                                                "(Some (%d, %d, %d)%%nat)" % tuple(d) if d and min(d) >= 0 else "None"))
     bars = []
     for pb in pre["Bars"]:
         b = byid[pb["ID"]]
@@ -133,6 +133,8 @@ def run(ctx):
         if i % 4 == 2:
             # other unit systems: large magnitudes in the printed torsors (N, mm), tiny ones (kN, m)
             s = G.convert_units(s, Fr(rng.choice(["10", "0.01"])), Fr(rng.choice(["1", "0.001", "1000"])))
+        if i % 6 == 5:
+            s = G.with_unused_node(s, rng)      # a node no bar is linked to has no equation numbers to write
         structs.append(s)
     cases = [{"Text": s.text(), "Weight": i % 3 == 0, "Solve": True, "Assemble": True, "Error": "1e-6" if i % 4 != 2 else "1e-3", "ViaPre": True} for i, s in enumerate(structs)]
     direct = [dict(c, ViaPre=False) for c in cases]
